@@ -743,6 +743,41 @@ func init() {
 				}
 			}
 		}
+		// chains: the stream one loader returned is an io.Reader like any other - read some of it, hand the rest
+		// to another loader (format sniffing in layers does this): that loader's stream replays what was left
+		for round := 0; round < c.n(300, 3000); round++ {
+			in := inputs[rng.Intn(len(inputs))]
+			if len(in.data) == 0 {
+				continue
+			}
+			w1 := []string{"png", "jpeg", "webp", "auto"}[rng.Intn(4)]
+			w2 := []string{"png", "jpeg", "webp", "auto"}[rng.Intn(4)]
+			k := []int{0, 1, 6, 100, 4095, 4096, 4097}[rng.Intn(7)]
+			if k > len(in.data) {
+				k = rng.Intn(len(in.data) + 1)
+			}
+			var st1, st2 io.Reader
+			if callNoPanic(func() { _, st1, _ = loaders[w1](bytes.NewReader(in.data)) }) || st1 == nil {
+				continue
+			}
+			head := make([]byte, k)
+			n, _ := io.ReadFull(st1, head)
+			if callNoPanic(func() { _, st2, _ = loaders[w2](st1) }) {
+				c.res.fail(Failure{Class: "C07:panic:" + w2, Desc: "loader panicked on another loader's stream", Input: in.name, Got: "panic", Want: "value or error"})
+				continue
+			}
+			c.res.count("chain", fmt.Sprint(round), true)
+			if st2 == nil {
+				c.res.fail(Failure{Class: "C07:nil-stream:" + w2, Desc: "loader returned a nil stream", Input: in.name, Got: "nil", Want: "stream"})
+				continue
+			}
+			got, end := drainStream(st2)
+			want := in.data[n:]
+			if !bytes.Equal(append(append([]byte{}, head[:n]...), got...), in.data) || end != "eof" {
+				c.res.fail(Failure{Class: "C07:chain:" + w1 + "->" + w2, Desc: fmt.Sprintf("%s.Load, %d bytes read from its stream, the rest handed to %s.Load: that loader's stream does not replay the remaining %d bytes (%s)", w1, n, w2, len(want), in.name),
+					Input: map[string]interface{}{"input": in.name, "data": shortHex(in.data), "first": w1, "read": n, "second": w2}, Got: fmt.Sprintf("%d bytes, first difference at %d, end=%s", len(got), firstDiff(got, want), end), Want: fmt.Sprintf("%d bytes", len(want))})
+			}
+		}
 	}
 
 	// ---------- C08 ----------
